@@ -44,6 +44,8 @@ def units(ctx):
         yield ("scale", k)
     for b in (21, 24, 30, 35):
         yield ("stack", b)
+    for k1 in KEYS:
+        yield ("twokeys", k1)
 
 
 def _alpha(ctx):
@@ -70,6 +72,16 @@ def gen_cases(unit, ctx):
             for iv in (1, -1, 7, 12, 19, 24, -24, 36, -36, 48, 87, -87, 127, -127):
                 yield {"notes": [list(x) for x in ns], "key": "Eb", "bar": False, "iv": iv, "long": True,
                        "build": "rel" if (iv + n) % 2 else "abs"}
+        return
+    if unit[0] == "twokeys":
+        # two key signatures in one sequence: EVERY ordered pair of the 15 keys x every interval -12..12 (a later key
+        # may equal the earlier one shifted by the interval); the same inside a bar whose own key is the first one
+        k1 = unit[1]
+        for k2 in KEYS:
+            for iv in range(-12, 13):
+                yield {"notes": [[0, 12, 60, ctx["ch"], 64]], "key": k1, "key2": k2, "bar": False, "iv": iv}
+                if iv % 3 == 0:
+                    yield {"notes": [[0, 12, 60, ctx["ch"], 64]], "key": None, "key2": k2, "bar": True, "barkey": k1, "iv": iv}
         return
     if unit[0] == "stack":
         # many notes held at once: every octave of one pitch class inside the range sounds, one of them enters late
@@ -139,7 +151,7 @@ def check_case(case, ctx):
             R.flags.append("aliased_messages_inside_sequence")
     else:
         notes = case["notes"]
-        events = [("ks", 0, key)] if key else []
+        events = ([("ks", 0, key)] if key else []) + ([("ks", 12, case["key2"])] if case.get("key2") else [])
         if case.get("build") == "rel":
             s = lib.seq_rel(notes, events, None)
         else:
@@ -192,12 +204,15 @@ def check_case(case, ctx):
                 R.bad("exact_shift_wrong", f"{view}: got {pn} expected {want}")
         for e in ev:
             if e[1] == "key_signature":
+                src = case["key2"] if case.get("key2") and e[0] == 12 else key       # the key this event carried before
                 if e[7] is None or e[7] not in TONIC:
-                    R.bad("key_event_undefined", f"{view}: {e} after transposing {key} by {iv}")
-                elif TONIC[e[7]] != (TONIC[key] + iv) % 12:
-                    R.bad("key_event_wrong_tonic", f"{view}: {key} by {iv} -> {e[7]}")
+                    R.bad("key_event_undefined", f"{view}: {e} after transposing {src} by {iv}")
+                elif src is not None and TONIC[e[7]] != (TONIC[src] + iv) % 12:
+                    R.bad("key_event_wrong_tonic", f"{view}: {src} at tick {e[0]} by {iv} -> {e[7]}")
                 else:
                     R.flags.append("key_event_transposed")
+        if case.get("key2") and key and case["key2"] != key and sum(1 for e in ev if e[1] == "key_signature") != 2:
+            R.bad("key_event_lost", f"{view}: two different key signatures went in, events now {[e for e in ev if e[1] == 'key_signature']}")
         if key and not any(e[1] == "key_signature" for e in ev):
             R.bad("key_event_lost", f"{view}: {ev}")
     if expect_shift:
